@@ -60,6 +60,7 @@ type Op struct {
 	// gets/scans: family -> qualifiers
 	Fams      map[string][]string `json:"fams,omitempty"`
 	DelOne    bool                `json:"del_one,omitempty"`
+	NoTS      bool                `json:"no_ts,omitempty"` // deletes: no timestamp option (the latest version / all versions); attributed by row
 	SkipBatch bool                `json:"skip_batch,omitempty"`
 	Exists    bool                `json:"exists,omitempty"`
 	TS        uint64              `json:"ts,omitempty"`  // explicit timestamp (0 = latest)
